@@ -7,8 +7,8 @@ import json, os, re
 import vcommon as V
 
 META = dict(
-    text="Lean 4 theorems (Props/C12.lean) prove for the models of the printer and of the reader: (1) read_print_data_partial, by structural induction over any nesting depth and length: for every value built from 64-bit integers, uint64, finite floats, characters, strings, booleans, symbols, lists (also with a dotted tail) and arrays, the printed text, delivered whole or in any pieces to a parser with any history, is accepted and yields exactly that value; it is assembled from string_literal_roundtrip / char_literal_roundtrip / escapes_inverse (what strconv.Quote and QuoteRune write for ANY rune - all 0x110000 code points through the regenerated IsPrint table - is read back as that rune by the lexer's escape table, including \\a \\b \\f \\v \\xHH \\uHHHH \\UHHHHHHHH), print_int_reads_back and print_uint_reads_back (every 64-bit numeral is a decimal/uint64 token converting back to the same number), print_float_reads_back (under an explicit law on FormatFloat/ParseFloat the printed float is one atom, a FLOAT token and never an integer token, and converts back with the same Scientific flag), the lexing of the whole text (every separator, bracket and the dotted-tail backslash), lazy = eager lexing for every parser program, and the parse of the token list with the model's fuel bound; (2) literal_digits_positional and literal_int_tokens: ParseInt/ParseUint as used by the parser compute the positional value of the digits in every base, so hex, octal, binary and decimal-with-underscores tokens denote exactly what is written or are refused when out of range. The models are tied to zygo/lexer.go, parser.go, expressions.go, hashutils.go by regenerated tables (regexp sources, DecodeAtom cascade order, escape table, hexEscapeLen, the strconv call of every literal token and of every printer method) and by the rt channel, which prints with the real code, reads back with the real parser and evaluates with the real interpreter: impl vs spec (the value itself; Spec.require for literal spellings, an independent positional/bisection specification checked against math/big) and impl vs model, over every code point of the first planes, every IsPrint transition, integer and float grids over all binades, every pair of atoms in every container, every spelling up to length 4 (thorough 5). (3) History independence (Spec/LiteralHistory.lean: what a text denotes is a function of the text alone - in every history every text gets the answer a fresh reader gives it): proved for the reader model from every state and for every text (model_reader_history_independent), parser_state_inventory ties the state of the real Parser to the modelled one (regenerated field list), and the rt H ops run 2-6 spellings / print-read round trips on ONE long-lived reader (one Parser object; one interpreter through (read ...) and through evaluation), systematically pairing the spellings that share a digit string across notations (bases 2/8/10/16, ULL, signs, leading zeros, underscores, float spellings) in every order, each step judged by the specification independently of the steps before it. Unit tests compare about sixty spellings and a handful of printed strings, each on a fresh interpreter.",
-    note="Trusted: Lean kernel; axioms propext/Classical.choice/Quot.sound; strconv.FormatFloat/ParseFloat enter as the hypothesis FloatLaw (shape of the text + parse-back), sampled over all binades on every run, not proved; ParseFloat's rounding is re-implemented (Model/NumLit) and compared bit for bit with strconv, math/big and Spec.nearestF64; regexp recognisers are hand-written for the regenerated source strings; the models are hand-written (Model/Lexer+Parser shared with C13, PrintData, EvalData) and tied by differential testing. Stated in full but NOT proved (compared on every generated input instead): ReadPrintData (fails today for nil: known finding), LiteralValue for every spelling (the cascade classification of arbitrary spellings, signs, fraction/exponent literals), EvalPrintJsonlike (hashes/arrays read back by evaluation). The symbol domain of the theorem is 'names DecodeAtom classifies as a symbol and that hold no rune special to the lexer' (symOK), not an independent grammar. Holds for the tree with fixes C12-01..05 and C13-02 applied; known finding: nil reads back as the symbol nil.",
+    text="Lean 4 theorems (Props/C12.lean) prove for the models of the printer and of the reader: (1) read_print_data_partial, by structural induction over any nesting depth and length: for every value built from 64-bit integers, uint64, finite floats, characters, strings, booleans, symbols, lists (also with a dotted tail) and arrays, the printed text, delivered whole or in any pieces to a parser with any history, is accepted and yields exactly that value; it is assembled from string_literal_roundtrip / char_literal_roundtrip / escapes_inverse (what strconv.Quote and QuoteRune write for ANY rune - all 0x110000 code points through the regenerated IsPrint table - is read back as that rune by the lexer's escape table, including \\a \\b \\f \\v \\xHH \\uHHHH \\UHHHHHHHH), print_int_reads_back and print_uint_reads_back (every 64-bit numeral is a decimal/uint64 token converting back to the same number), print_float_reads_back (under an explicit law on FormatFloat/ParseFloat the printed float is one atom, a FLOAT token and never an integer token, and converts back with the same Scientific flag), the lexing of the whole text (every separator, bracket and the dotted-tail backslash), lazy = eager lexing for every parser program, and the parse of the token list with the model's fuel bound; (2) literal_value_int and literal_value_uint, for spellings of any length: EVERY spelling to which the specification (Spec.mathValue, written from the property text) gives an integer or uint64 verdict and that does not begin with '+' - every hex 0x.., octal 0o.., binary 0b.. literal, every decimal literal with underscores (well placed or not) with or without a minus sign, every <digits>ULL / 0x..ULL / 0o..ULL literal - is read by the whole reader model (lexer from a fresh state incl. the sign look-back, the DecodeAtom cascade in source order, ParseInt/ParseUint with the base of the token, top-level loop, end of input) as exactly the positional value of its digits with its sign, and is refused exactly when that value is outside int64 / uint64 (literal_digits_positional: Horner = positional value in every base; Proofs/LiteralSpec inverts the specification, Proofs/LiteralNotations walks the cascade per notation, Proofs/LiteralRead is the glue from one atom to the reader's answer); (2b) eval_print_jsonlike_partial, by structural induction over any nesting: every JSON-like value without a hash inside (64-bit integers, finite floats, strings, booleans, nil, arrays) printed, read and evaluated is the value again - nil included (it reads back as the symbol nil, which evaluates to nil). The models are tied to zygo/lexer.go, parser.go, expressions.go, hashutils.go by regenerated tables (regexp sources, DecodeAtom cascade order, escape table, hexEscapeLen, the strconv call of every literal token and of every printer method) and by the rt channel, which prints with the real code, reads back with the real parser and evaluates with the real interpreter: impl vs spec (the value itself; Spec.require for literal spellings, an independent positional/bisection specification checked against math/big) and impl vs model, over every code point of the first planes, every IsPrint transition, integer and float grids over all binades, every pair of atoms in every container, every spelling up to length 4 (thorough 5). (3) History independence (Spec/LiteralHistory.lean: what a text denotes is a function of the text alone - in every history every text gets the answer a fresh reader gives it): proved for the reader model from every state and for every text (model_reader_history_independent), parser_state_inventory ties the state of the real Parser to the modelled one (regenerated field list), and the rt H ops run 2-6 spellings / print-read round trips on ONE long-lived reader (one Parser object; one interpreter through (read ...) and through evaluation), systematically pairing the spellings that share a digit string across notations (bases 2/8/10/16, ULL, signs, leading zeros, underscores, float spellings) in every order, each step judged by the specification independently of the steps before it. Unit tests compare about sixty spellings and a handful of printed strings, each on a fresh interpreter.",
+    note="Trusted: Lean kernel; axioms propext/Classical.choice/Quot.sound; strconv.FormatFloat/ParseFloat enter as the hypothesis FloatLaw (shape of the text + parse-back), sampled over all binades on every run, not proved; ParseFloat's rounding is re-implemented (Model/NumLit) and compared bit for bit with strconv, math/big and Spec.nearestF64; regexp recognisers are hand-written for the regenerated source strings; the models are hand-written (Model/Lexer+Parser shared with C13, PrintData, EvalData) and tied by differential testing. Stated in full but NOT proved in full (the rest is compared on every generated input instead): ReadPrintData (fails today for nil: known finding); LiteralValue (over one-word spellings - literal_value_blank_counterexample shows why blanks must be excluded): proved for all integer and uint64 verdicts (literal_value_int, literal_value_uint), and the words Inf/-Inf/+Inf/NaN (literal_value_inf_nan; together literal_value_partial over CoveredSpelling), NOT proved for the finite fraction/exponent literals (ParseFloat's rounding in Model/NumLit vs Spec.nearestF64 is compared bit for bit, not proved equal), for spellings with a leading '+' or a minus on a based literal ('may' verdicts) and for the 'not a number' verdicts (that no other spelling is read as a number: the cascade classification of arbitrary atoms); EvalPrintJsonlike: proved for hash-free values (eval_print_jsonlike_partial), NOT proved for hashes ({k:v ...} goes through the '{' look-ahead, MakeHash/HashSet) and +-Inf. The symbol domain of the theorem is 'names DecodeAtom classifies as a symbol and that hold no rune special to the lexer' (symOK), not an independent grammar. Holds for the tree with fixes C12-01..05 and C13-02 applied; known finding: nil reads back as the symbol nil.",
     technique="Lean 4 proof over executable models of the printer, the lexer/parser and the literal conversion + regenerated tables + model/implementation/specification correspondence (channel rt) with math/big as second judge of literal values",
     design_ref="DESIGN.md §7 C12",
 )
@@ -44,6 +44,15 @@ def run(rep):
         pass
     prep = V.prepare(["ZygoVerif.Props.C12"])
     V.lean_phase(rep, prep, "ZygoVerif.Props.C12")
+    rep.coverage["proved"] = ("read_print_data_partial (+ read_print_sign, string/char/escape/int/uint/float round trips): any nesting, any pieces, any parser history; "
+        "literal_value_int: every spelling with an integer verdict of Spec.mathValue and no leading '+' (hex, octal, binary, decimal with underscores well placed or not, minus sign) is read as exactly its positional value, refused exactly outside [-2^63, 2^63); "
+        "literal_value_uint: every spelling with a uint64 verdict (<digits>ULL, 0x..ULL, 0o..ULL) likewise, refused exactly at >= 2^64; literal_value_inf_nan (Inf, -Inf, +Inf, NaN); literal_value_partial (their union, CoveredSpelling); literal_digits_positional, literal_int_tokens, neg_fraction_begins/fixed; "
+        "eval_print_jsonlike_partial: every JSON-like value without a hash and with finite floats (nil included, arrays nested to any depth) printed, read and evaluated is the value again (relative to FloatLaw); "
+        "model_reader_history_independent, parser_state_inventory; the T1 table theorems; the pre-fix counterexamples")
+    rep.coverage["not_proved"] = ("ReadPrintData in full (false today: nil, read_print_nil_counterexample; NaN/Inf, raw strings, operator/dotted symbols are correspondence only); "
+        "LiteralValue in full: the finite fraction/exponent literals (the model's ParseFloat rounding vs Spec.nearestF64: compared bit for bit on every op, not proved equal), "
+        "spellings with a leading '+' and signed based literals ('may' verdicts), and the 'not a number' verdicts (that nothing else is read as a number); "
+        "EvalPrintJsonlike for hashes and +-Inf; FloatLaw (strconv.FormatFloat/ParseFloat) is a hypothesis sampled over all binades")
     rep.assumptions += [
         "strconv.FormatFloat / ParseFloat: the printer model takes the text of every float from the op (computed by the standard library in the harness); the theorems use the FloatLaw record (shape of the text, parse-back) as an explicit hypothesis, sampled by this run over all binades",
         "strconv.IsPrint is the table regenerated from the Go standard library (Generated/IsPrint.lean); strconv.Quote/QuoteRune are modelled at rune level for valid UTF-8 (Model/PrintData.lean) and compared with the real printer on every op",
